@@ -2,6 +2,7 @@
    Core Lean only (nothing imported here may import Mathlib, or the executable will not link).
      drv_c20 codegen <dumpfile>     assembly text of the code-generation model for an AST dump
      drv_c20 effect <dumpfile>      Effect.checkBody on the code of every function body
+     drv_c20 cells                  effect of every cast_table cell, by path analysis
      drv_c20 scope <dumpfile>       typing side condition and theorem coverage of every function -/
 import ChibiVerif.Driver.CodegenCmd
 import ChibiVerif.Driver.EffectCmd
@@ -12,6 +13,7 @@ def main (args : List String) : IO UInt32 := do
   | "codegen" :: rest => ChibiVerif.Driver.codegenMain rest
   | "effect" :: rest => ChibiVerif.Driver.effectMain rest
   | "scope" :: rest => ChibiVerif.Driver.scopeMain rest
+  | "cells" :: _ => ChibiVerif.Driver.cellsMain
   | _ =>
-    IO.eprintln "usage: drv_c20 codegen|effect|scope <dumpfile>"
+    IO.eprintln "usage: drv_c20 codegen|effect|scope <dumpfile> | drv_c20 cells"
     return 2
